@@ -167,8 +167,8 @@ def main(argv=None):
         print("undecided: %s (%s)" % (s.id, r.get("error") or r.get("unknowns")))
     if exit_code == 0 and faults:
         exit_code = 3
-    if exit_code == 0 and undecided:
-        exit_code = 2
+    if exit_code == 0 and (undecided or inapplicable):
+        exit_code = 2          # a contract whose frame no longer matches the code decides nothing about it: undecided, not held
 
     wall = time.time() - t0
     if not a.no_evidence and not a.only:
